@@ -234,13 +234,18 @@ def skipExpZeros : List Nat → Bool → List Nat × Bool
   | [], sd => ([], sd)
   | c :: rest, sd => if c = 48 then skipExpZeros rest true else (c :: rest, sd)
 
+/-- `if (ee < (INT32_MAX / 40)) ee = exp_base * ee + digit;` and, when the source has it (`eeSat ≠ 0`),
+    `else ee = INT32_MAX / 4;`.  Without the else-branch further exponent digits are silently DROPPED. -/
+def eeStep (expBase ee digit : Nat) : Nat :=
+  if ee < eeLimit then expBase * ee + digit else if eeSat = 0 then ee else eeSat
+
 /-- exponent digits: (ee, seenadigit) or error -/
 def scanExpDigits (expBase : Nat) : List Nat → Nat → Bool → Option (Nat × Bool)
   | [], ee, sd => some (ee, sd)
   | c :: rest, ee, _sd =>
     let digit := digitOf c
     if c > 127 ∨ digit ≥ expBase then none
-    else scanExpDigits expBase rest (if ee < eeLimit then expBase * ee + digit else ee) true
+    else scanExpDigits expBase rest (eeStep expBase ee digit) true
 
 /-- radix prefix when `base == 0`: returns (base, rest) or error -/
 def scanPrefix (s : List Nat) : Option (Nat × List Nat) :=
